@@ -177,7 +177,9 @@ def mask_file(regionfile, infile, outfile, negate=False):
         wcs = pywcs.WCS(str(im[0].header), naxis=2)
 
     if len(im[0].data.shape) > 2:
-        data = np.squeeze(im[0].data)
+        # remove the degenerate leading axes but never the two image axes
+        lead = tuple(i for i, n in enumerate(im[0].data.shape[:-2]) if n == 1)
+        data = np.squeeze(im[0].data, axis=lead)
     else:
         data = im[0].data
 
